@@ -399,6 +399,7 @@ pub fn worker_k<K: Kind>(args: &[String]) -> i32 {
 }
 
 pub const BIG_PROPS: [&str; 13] = ["C01", "C02", "C03", "C04", "C05", "C06", "C09", "C10", "C11", "C12", "C14", "C15", "C16"];
+pub const TYPES_PROPS: [&str; 8] = ["C01", "C02", "C03", "C04", "C05", "C06", "C08", "C12"];
 pub const SWEEP_PROPS: [&str; 8] = ["C01", "C02", "C03", "C04", "C05", "C06", "C08", "C11"];
 
 /// One worker of the small-scope sweep: cases index, index+of, ...
@@ -486,8 +487,11 @@ pub fn replay_k<K: Kind>(args: &[String]) -> i32 {
         Ok(r) => r,
         Err(e) => {
             // a large-scale case saved for a script-based property
-            if K::kind_name() != "big" && load_replay::<crate::big::BigCase>(&path).is_ok() {
+            if K::kind_name() == "script" && load_replay::<crate::big::BigCase>(&path).is_ok() {
                 return replay_k::<crate::big::BigKind>(args);
+            }
+            if K::kind_name() == "script" && load_replay::<crate::ext::TypesCase>(&path).is_ok() {
+                return replay_k::<crate::ext::TypesKind>(args);
             }
             eprintln!("{}", e);
             return 2;
@@ -889,6 +893,100 @@ pub fn launcher_k<K: Kind>(args: &[String]) -> i32 {
             violations.push((path, msg));
         }
     }
+    // 2e. payload-type matrix: generated histories on Rc<T> for a list of payload
+    // types (zero-sized, odd sizes, larger than a page, over-aligned, with and
+    // without drop glue), ownership kept outside the values
+    let mut types_info = serde_json::json!(null);
+    let mut types_failures: Vec<Failure> = vec![];
+    if TYPES_PROPS.contains(&id.as_str()) && !args.iter().any(|a| a == "--no-types") && failures.is_empty() && violations.is_empty() {
+        let total: u64 = arg(args, "--types").and_then(|s| s.parse().ok()).unwrap_or(if tier == Tier::Thorough { 200_000 } else { 12_000 });
+        let mut kids = vec![];
+        for i in 0..nworkers {
+            let cases = total / nworkers + if i < total % nworkers { 1 } else { 0 };
+            if cases == 0 {
+                continue;
+            }
+            let out = run_dir.join(format!("t{}.json", i));
+            let child = std::process::Command::new(&exe)
+                .arg("typesworker")
+                .arg(&id)
+                .arg("--tier")
+                .arg(if tier == Tier::Thorough { "thorough" } else { "quick" })
+                .arg("--seed")
+                .arg(seed.to_string())
+                .arg("--index")
+                .arg((i + 2000).to_string())
+                .arg("--cases")
+                .arg(cases.to_string())
+                .arg("--out")
+                .arg(&out)
+                .spawn()
+                .expect("cannot spawn types worker");
+            kids.push((child, out));
+        }
+        let mut tl = serde_json::Map::new();
+        let mut hist = vec![0u64; 64];
+        let (mut ev, mut nt, mut objs) = (0u64, 0usize, 0u64);
+        let mut tsamples = vec![];
+        for (mut child, out) in kids {
+            let _ = child.wait();
+            let Ok(txt) = std::fs::read_to_string(&out) else {
+                undecided.push("types worker produced no output".into());
+                continue;
+            };
+            let Ok(wo) = serde_json::from_str::<WorkerOut>(&txt) else {
+                undecided.push("bad types worker output".into());
+                continue;
+            };
+            ev += wo.evaluations;
+            nt += wo.nontrivial_hashes.len();
+            objs += wo.counters[20];
+            merged.internal += wo.internal;
+            merged.timeout += wo.timeout;
+            merged.skipped_after_watchdog += wo.skipped_after_watchdog;
+            merged.other_view += wo.other_view;
+            merged.soft_other += wo.soft_other;
+            merged.exhausted += wo.exhausted;
+            merged.internal_msgs.extend(wo.internal_msgs);
+            for i in 0..64 {
+                hist[i] += wo.label_hist[i];
+            }
+            hashes.extend(wo.nontrivial_hashes.iter().map(|h| h ^ 0x7E5));
+            for smp in wo.samples.into_iter().take(1) {
+                if tsamples.len() < 3 {
+                    tsamples.push(smp);
+                }
+            }
+            if let Some(f) = wo.failure {
+                types_failures.push(f);
+            }
+        }
+        for (i, name) in crate::ext::NAMES.iter().enumerate() {
+            if hist[i] > 0 {
+                tl.insert(name.to_string(), serde_json::json!(hist[i]));
+            }
+        }
+        replayed += ev;
+        types_info = serde_json::json!({"cases": ev, "nontrivial": nt, "objects_total": objs, "labels": tl, "samples": tsamples,
+            "payload_types": (0..crate::ext::NTYPES).map(crate::ext::type_name).collect::<Vec<_>>(),
+            "description": "generated histories (new via Rc::new/From<T>/From<Box<T>>, clone, drop, adopt/unadopt, hubs of up to 600 adoptees, rings, Weak incl. Weak::new and raw round trips, try_unwrap, get_mut, make_mut, clone_from, increment/decrement_strong_count) on Rc<T> for each listed payload type, handles owned outside the values; same reference model and oracles as the script histories"});
+    }
+    types_failures.sort_by_key(|f| f.script.as_ref().map(|s| s.to_string().len()).unwrap_or(usize::MAX));
+    if let Some(f) = types_failures.first() {
+        if let Some(sv) = &f.script {
+            let s: crate::ext::TypesCase = serde_json::from_value(sv.clone()).expect("unparsable types case");
+            let r = <crate::ext::TypesKind as Kind>::run(&id, tier, &s);
+            let (case, msg) = if r.outcome == Outcome::Violation {
+                (s, r.msg)
+            } else if let Some(fs) = &f.first_script {
+                (serde_json::from_value(fs.clone()).expect("unparsable types case"), f.first_msg.clone())
+            } else {
+                (s, f.msg.clone())
+            };
+            let path = save_found(&id, &case, &msg);
+            violations.push((path, msg));
+        }
+    }
     let _ = std::fs::remove_dir_all(&run_dir);
 
     // smallest shrunk failure becomes the replay file
@@ -981,6 +1079,7 @@ pub fn launcher_k<K: Kind>(args: &[String]) -> i32 {
             "totals": K::totals(c),
             "small_scope_sweep": sweep_info,
             "large_scale_cases": big_info,
+            "payload_type_matrix": types_info,
             "e2_libfuzzer_campaign": fuzz_info,
             "workers": nworkers,
             "workers_on_plain_release_profile": alt_workers,
